@@ -590,6 +590,10 @@ pub fn prop_lines(bytes: &[u8]) -> String {
     if m2.background_file != m1.background_file && !m1.background_file.contains("//") {
         return format!("FAIL background file {:?} is read back as {:?}", m1.background_file, m2.background_file);
     }
+    // no bookmark is dropped or changed (seed C04-v: `, ` as separator; the reader discards what does not parse, silently)
+    if m2.bookmarks != m1.bookmarks {
+        return format!("FAIL bookmarks {:?} are read back as {:?}", m1.bookmarks, m2.bookmarks);
+    }
     // a timing point keeps its meter (seed C04-r: the numerator narrowed to a byte by the writer)
     if m2.control_points.timing_points.len() == m1.control_points.timing_points.len() {
         for (a, b) in m1.control_points.timing_points.iter().zip(&m2.control_points.timing_points) {
